@@ -325,6 +325,36 @@ func propC10(c *Check) {
 	c.RequireFact(ah, "R2", "one-signer", lit(EQ("1", "len(StdTx.GetSigners("+std+"#0)#0)")), tn, "next()")
 	to := "StdTx.GetTimeoutHeight(" + std + "#0)"
 	c.RequireFact(ah, "R2", "timeout-not-expired", patLE(to, "0")+"|"+lit(EQ("0", to))+"|"+patLE("Context.BlockHeight()", to), tn, "next()")
+	// … and the expiry test is strict: a transaction whose timeout height EQUALS the block height is not expired (the
+	// block message must carry exactly that timeout, so rejecting equality would reject every honest proposal: C08)
+	{
+		strict := true
+		for _, ef := range p.EdgeFacts(ah) {
+			if ef.Pred != nil || !strings.Contains(ef.Fact, to) || !strings.Contains(ef.Fact, "Context.BlockHeight()") {
+				continue
+			}
+			// an edge that holds when timeout == height …
+			if !(strings.Contains(ef.Fact, " <= ") || strings.Contains(ef.Fact, " == ")) {
+				continue
+			}
+			// … must be able to reach next()
+			start := ef.Block.Succs[ef.Idx]
+			if len(start.Instrs) == 0 {
+				continue
+			}
+			reach := false
+			if t, _ := (&PathSearch{Fn: ah, From: start.Instrs[0], IsTarget: tn}).Find(); t != nil || tn(start.Instrs[0]) {
+				reach = true
+			}
+			if !reach {
+				strict = false
+				c.Violated("R2", "timeout-equal-height-admitted @ "+FuncKey(ah), p.InstrPos(ef.Block.Instrs[len(ef.Block.Instrs)-1]), "the outcome "+ef.Fact+" (true for timeout == height) leads only to rejection: the block message, whose timeout must equal the block height, could never be admitted")
+			}
+		}
+		if strict {
+			c.Held("R2", "timeout-equal-height-admitted @ "+FuncKey(ah), p.Pos(ah.Pos()), "only timeout < height is treated as expired")
+		}
+	}
 	c.RequireFact(ah, "R2", "msgs-readable", lit("(Tx.GetMsgsV2($2)#1 == nil)"), tn, "next()")
 	c.RequireFact(ah, "R2", "proposer-readable", lit("(RelayerKeeper.GetCurrentProposer()#1 == nil)"), tn, "next()")
 
